@@ -64,7 +64,7 @@ Theorem c06_total : forall inc steps,
 Proof. exact program_total. Qed.
 Print Assumptions c06_total.
 
-(* RE-USE of the writer (model of the code after the repair 537d726).  initProgram on a writer in ANY state s - in the middle of a step,
+(* RE-USE of the writer (model of the code after the repair b0fbe3f).  initProgram on a writer in ANY state s - in the middle of a step,
    after an incremental program that left theory atoms behind, after an exception - gives the state of a NEW writer's initProgram with the
    bytes already written in front; and the calls cs of the second program then yield the same status (ok / logic_error / fault) and
    append exactly the text a new writer would have written for them: nothing of the first program is visible in the second. *)
